@@ -451,6 +451,23 @@ pub fn flatten_oracle(o: &Outcome, s: &Scen) -> Option<(String, serde_json::Valu
   let outer_items = s.threads.iter().flatten().filter(|op| matches!(op, TOp::Next(0))).count();
   let spy_subs: Vec<u32> = o.evs.iter().filter(|e| e.id >= 10_000 && matches!(e.k, K::Subscribed)).map(|e| e.id).collect();
   let all_inner_done = spy_subs.iter().all(|id| o.evs.iter().any(|e| e.id == *id && matches!(e.k, K::N(N::Complete))));
+  // a queued inner may only keep waiting while `limit` inners are still open
+  if let (Kind::Pipe(c), false, false) = (&s.kind, unsubbed, errored) {
+    let limit = c.ops.iter().find_map(|op| match op {
+      Op::MergeAll(n, _) => Some(*n),
+      Op::ConcatAll(_) | Op::ConcatMap(_) => Some(1),
+      _ => None,
+    });
+    let open = spy_subs.iter().filter(|id| !o.evs.iter().any(|e| e.id == **id && matches!(e.k, K::N(N::Complete)))).count();
+    if let Some(limit) = limit {
+      if spy_subs.len() < outer_items && open < limit {
+        return Some((
+          "queued_inner_never_started".into(),
+          json!({"why": format!("all calls have returned: the outer emitted {} inner observables, only {} were ever subscribed and {} of them are still open, below the limit {}", outer_items, spy_subs.len(), open, limit), "saw": jn(&out)}),
+        ));
+      }
+    }
+  }
   if !unsubbed && !errored && outer_done && spy_subs.len() == outer_items && all_inner_done && out.last() != Some(&N::Complete) {
     return Some((
       "completion_missing".into(),
